@@ -272,9 +272,8 @@ def main(tier, seed):
 
     crosscheck.attach(rep, seed)
     rep.assumed_contract("core field functions are positively homogeneous in their length arguments (degree 0 magnets, -1 currents, -3 dipole): PROVED here for "
-                         "magnet_cuboid_Bfield, dipole_Hfield, triangle_Bfield (real code, dimension calculus incl. additive degrees of logarithms); ASSUMED for the "
-                         "stubs of the remaining cores: cyl_dia_H, cyl_ax_B, seg_H, circle_H, polyline_H, point_inside")
-    rep.assumed_contract("tetrahedron point_inside invariant under common positive scaling (assumed); the chirality decision of check_chirality is PROVED scale invariant (real code, dimension calculus)")
+                         "magnet_cuboid_Bfield, dipole_Hfield, triangle_Bfield, current_polyline_Hfield, current_circle_Hfield (cel_iter of unit-free arguments as a stub), point_inside, check_chirality (real code, dimension calculus incl. additive degrees of logarithms); ASSUMED for the "
+                         "stub of the remaining core seg_H; the cylinder cores take unit-free arguments only (typed on the real code with cel / ellipe / ellipk as stubs)")
     rep.axiom("homogeneity rules of the dimension calculus: sqrt(s^2 q) = s sqrt(q), arctan2(s y, s x) = arctan2(y, x) for s > 0, order preserved by s > 0")
     rep.assume("TriangularMesh wrapper, mesh validation and face orientation: only in the numeric stand-in (known absolute tolerances there)")
     rep.explanation = "dimension-calculus type derivation over the term DAG of every path of every wrapper (length and excitation gradings)"
